@@ -26,6 +26,7 @@ pub struct GenCfg {
     pub max_run: usize,
     pub panics: bool,
     pub extract_cmds: bool,
+    pub faults: bool,
 }
 
 impl Default for GenCfg {
@@ -50,6 +51,7 @@ impl Default for GenCfg {
             max_run: 3,
             panics: false,
             extract_cmds: false,
+            faults: false,
         }
     }
 }
@@ -167,6 +169,12 @@ impl<'a, 'b> Gen<'a, 'b> {
                     _ => (Ty::Bool, Merge::And),
                 };
                 sig.funcs.push(FuncDecl { name: format!("G{i}"), kind: FKind::Func { merge }, args, out });
+            }
+        }
+        if self.cfg.faults {
+            sig.funcs.push(FuncDecl { name: "NM".into(), kind: FKind::Func { merge: Merge::NoMerge }, args: vec![Ty::Eq(0)], out: Ty::I64 });
+            if !sig.funcs.iter().any(|f| f.is_func() && f.out == Ty::I64 && !matches!(f.kind, FKind::Func { merge: Merge::NoMerge })) {
+                sig.funcs.push(FuncDecl { name: "GI".into(), kind: FKind::Func { merge: Merge::Max }, args: vec![Ty::I64], out: Ty::I64 });
             }
         }
         let n_rs = s.below(3);
@@ -564,6 +572,10 @@ impl<'a, 'b> Gen<'a, 'b> {
                 }
             }
         }
+        if self.cfg.panics && self.src.chance(1, 5) {
+            let pos = self.src.below(head.len() + 1);
+            head.insert(pos, Action::Panic("boom".into()));
+        }
         if head.is_empty() {
             // always possible: insert into a relation or union with itself is useless; fall back to a leaf insert
             let leaf = self.pool[0].1.clone();
@@ -813,7 +825,75 @@ impl<'a, 'b> Gen<'a, 'b> {
         }
     }
 
+    /// commands that (may) fail at run time
+    pub fn gen_fault(&mut self) -> Cmd {
+        let nm = self.sig.funcs.iter().position(|f| f.name == "NM");
+        let gi: Vec<usize> = self.sig.funcs.iter().enumerate().filter(|(_, f)| f.is_func() && f.out == Ty::I64 && f.name != "NM").map(|(i, _)| i).collect();
+        match self.src.below(6) {
+            0 | 1 => {
+                // :no-merge writes: conflicts arise directly or later through a union collapsing two keys
+                if let Some(nm) = nm {
+                    let k = self.ground(&Ty::Eq(0));
+                    return Cmd::Act(Action::Set(nm, vec![k], Term::I(self.src.range(0, 2))));
+                }
+            }
+            2 => {
+                // failing primitive in a top-level action
+                if !gi.is_empty() {
+                    let g = *self.src.pick(&gi);
+                    let tys = self.sig.funcs[g].args.clone();
+                    let args = tys.iter().map(|t| self.ground(t)).collect();
+                    let bad = if self.src.bool() {
+                        Term::Prim("/".into(), vec![Term::I(1), Term::I(0)])
+                    } else {
+                        Term::Prim("+".into(), vec![Term::I(i64::MAX), Term::I(1)])
+                    };
+                    return Cmd::Act(Action::Set(g, args, bad));
+                }
+            }
+            3 => {
+                // failed lookup in a top-level action
+                if !gi.is_empty() {
+                    let g = *self.src.pick(&gi);
+                    let g2 = *self.src.pick(&gi);
+                    let tys = self.sig.funcs[g].args.clone();
+                    let args = tys.iter().map(|t| self.ground(t)).collect();
+                    let tys2 = self.sig.funcs[g2].args.clone();
+                    let args2 = tys2.iter().map(|t| self.ground(t)).collect();
+                    return Cmd::Act(Action::Set(g, args, Term::App(g2, args2)));
+                }
+            }
+            4 => {
+                // failing primitive inside a rule head
+                if !gi.is_empty() {
+                    let g = *self.src.pick(&gi);
+                    let mut env: Env = vec![];
+                    let (body, _) = self.gen_body(&mut env, 1);
+                    let tys = self.sig.funcs[g].args.clone();
+                    let args = tys.iter().map(|t| self.head_arg(&env, t)).collect();
+                    let rs = self.pick_ruleset();
+                    self.note_rule(rs, false);
+                    return Cmd::Rule { body, head: vec![Action::Set(g, args, Term::Prim("/".into(), vec![Term::I(1), Term::I(0)]))], opts: RuleOpts { ruleset: rs, ..Default::default() } };
+                }
+            }
+            _ => {}
+        }
+        // a rule that panics, in a ruleset that (typically) also holds union/insert rules
+        let mut env: Env = vec![];
+        let n = 1 + self.src.below(2);
+        let (body, ctor_atoms) = self.gen_body(&mut env, n);
+        let (mut head, _) = self.gen_head(&env, &ctor_atoms);
+        let pos = self.src.below(head.len() + 1);
+        head.insert(pos, Action::Panic("boom".into()));
+        let rs = self.pick_ruleset();
+        self.note_rule(rs, false);
+        Cmd::Rule { body, head, opts: RuleOpts { ruleset: rs, ..Default::default() } }
+    }
+
     pub fn gen_cmd(&mut self) -> Cmd {
+        if self.cfg.faults && self.src.chance(1, 5) {
+            return self.gen_fault();
+        }
         let any_rules = self.has_rules.iter().any(|x| *x);
         let w = [
             10,                                                           // 0 top-level action
